@@ -349,7 +349,10 @@ else:
             return ([], kwargs)
 
         def argument(self, value, pos_or_name):
-            assert isinstance(pos_or_name, str)
+            if isinstance(pos_or_name, int):
+                # positional arguments are used for the fields in order
+                init_fields = [f for f in attrs.fields(type(value)) if f.init]
+                return getattr(value, init_fields[pos_or_name].name)
             return getattr(value, pos_or_name)
 
 
@@ -450,7 +453,8 @@ class NamedTupleAdapter(GenericCallAdapter):
         )
 
     def argument(self, value, pos_or_name):
-        assert isinstance(pos_or_name, str)
+        if isinstance(pos_or_name, int):
+            return value[pos_or_name]
         return getattr(value, pos_or_name)
 
 
